@@ -69,6 +69,11 @@ def dej(ctx, ty, raw, expect, cls):
         ctx.add('sd.de', ty, 'seqhint', hx(raw), expect=expect, cls=cls)
 
 
+import random as _random
+_MONT_US = [(c, u) for c, u in vals.montgomery_us(_random.Random(7), 60) if c != 'random'] + \
+           [('noncanon', to32(P + k)) for k in range(19)] + [('noncanon', to32((P + k) | (1 << 255))) for k in range(19)]
+
+
 def native_value(rng, ty):
     """some valid native value of the type (the one an in-place deserialisation overwrites)"""
     for _ in range(64):
@@ -96,6 +101,10 @@ def value_for(rng, ty):
             return ref.ristretto_encode(vals.Pt(rng.randrange(L), 0).affine()), 'valid'
         c, e = rng.choice(vals.ristretto_encodings(rng, 30))
         return e, ('valid' if ref.ristretto_decode(e) else 'reject:invalid-ristretto')
+    if ty in ('montgomery', 'xpublic') and r < 0.6:
+        # every byte string is a u-coordinate: unreduced ones (p .. 2^255-1), bit 255 set, small order, near the basepoint
+        c, u = rng.choice(_MONT_US)
+        return u, 'valid'
     if ty == 'signature':
         return vals.rb(rng, 64), 'valid'
     if ty == 'xstatic':
@@ -193,7 +202,7 @@ def task(prop, seed, size_, cfgbins):
 
 def run(prop, tier, seed, t0):
     from .. import plan
-    cfgs = ['simd', 'serial32', 'fiat64'] if tier == 'quick' else plan.ALL_CFGS
+    cfgs = plan.ALL_CFGS
     bins, notes, failed = plan.bins_for(cfgs, ('rel', 'chk') if tier == 'thorough' else ('rel',))
     if failed:
         return plan.fail_build(prop, failed)
